@@ -177,6 +177,7 @@ Eval(e, env) ==
                           [] Unbound(e.f) -> Err
                           [] e.f = "size" /\ SizeOverridden(env) -> (IF AnyErrSeq(EvalSeq(e.args, env)) THEN Indef ELSE IntV(FromInt(-1)))
                           [] e.f = "size" /\ Len(e.args) = 1 -> SizeOf(Eval(e.args[1], env))
+                          [] e.f = "dyn" /\ Len(e.args) = 1 -> Eval(e.args[1], env)          \* dyn() only changes the static type
                           [] e.f = "matches" /\ Len(e.args) = 2 -> MatchFn(Eval(e.args[1], env), Eval(e.args[2], env))
                           [] e.f = "type" /\ Len(e.args) = 1 -> (LET v == Eval(e.args[1], env) IN IF IsErr(v) THEN Err ELSE IF IsIndef(v) THEN Indef ELSE Type(TypeName(v)))
                           [] OTHER -> Indef)
